@@ -155,6 +155,15 @@ CHECKS = {
              "fixes e6ef503 (headers validated, entry size bounded by its block), fd40a0b (index and marker files validated), 5e725a7 (recovery bounded by the file length): on the pinned tree 67 of 400 "
              "damaged directories crashed the open (panic, SIGSEGV, SIGABRT).",
              tech="Lean 4 proof (FNV step bijectivity; position arithmetic of header decoding) + byte-level correspondence + mutation harness (oracle)", ref="§6 C11"),
+ "C13": dict(text="Partial. Model: two instances of one process on two directories sharing the process-global trackers, deletion queue and LAST_MILLIS. Theorems: C13_other_instance_untouched / "
+             "C13_second_instance_does_not_move_the_first (an operation addressed to one instance - appends, batches, faulted ones, both read APIs, counts, markers, persister, open, close, "
+             "reclaim - leaves the other instance's chains, cursors, writers, index, counts, markers exactly as they were, in both directions). FALSE for the reclamation clause: "
+             "C13_counterexample_blockIdCollision (open finding; replayed on the real engine on every run: B's consumption makes A's unread file reclaimable, A's entries are lost after the "
+             "restart). Correspondence: ~260 two-instance histories per quick run (same topic names in both, random addressing, tracker tuples and listings of both directories, reclaimer, "
+             "reopen, restart), one FIFO/count oracle per instance.",
+             note=BASE_NOTE + "Instances are driven from one thread (operation-granularity interleaving). The premise 'keys sanitize differently' is C14. The fsync-schedule 'first instance wins' "
+             "global (durability, C10) is not modelled. A candidate repair (tracker keyed by file + block id) touches four files and was not judged small.",
+             tech="Lean 4 proof (frame lemmas over every operation for the other instance's state; counterexample by kernel evaluation) + two-instance differential correspondence + per-instance oracle", ref="§6 C13"),
 }
 NOT_APPLICABLE = {
  "C19": "statement about the vendored openraft core + QUIC transport + tokio runtime, none of which can be built or run offline here (tokio, quinn, rustls, futures absent from the registry); a free-standing Raft proof would be tied to nothing (DESIGN.md §6 C19)",
